@@ -14,7 +14,7 @@ N = {"quick": 15000, "thorough": 160000}
 TIME_BUDGET = {"quick": 45, "thorough": 480}
 MIN_NONTRIVIAL = {"quick": 300, "thorough": 3000}
 RULE = ("cases = declaration (Schema / DataClass / @parse function, 2-5 fields; field types int, str, List[int], Optional[int], "
-        "Dict[str,int], Union[int,List[int]], Tuple[int,str], (int>=0 & even), int>=0, Optional[nested Schema]; required or "
+        "Dict[str,int], Union[int,List[int]], Tuple[int,str], (int>=0 & even), int>=0, Optional[nested Schema], Type[int], List[Type[int]]; required or "
         "defaulted; optional single alias; Options addition None/True/False, both lookup strategies) x 5 inputs in which every "
         "subset of <=4 fields is invalid (bad nested elements, several bad elements, unions where every branch fails, failing &), "
         "required fields are missing and 0-2 unknown keys are present. Each input is parsed fail-fast, with collect_errors, and "
@@ -27,7 +27,7 @@ ASSUMPTIONS = [
     "items are matched by field identity (output name or attribute name both accepted)",
     "declarations here avoid no_input / mode / dependencies / duplicate spellings: their interplay with reporting belongs to C05/C06",
 ]
-FTYPES = ["int", "int", "str", "listint", "optint", "dictint", "unionil", "tuple2", "andpos", "posint", "nested", "xorpos", "noteven"]
+FTYPES = ["int", "int", "str", "listint", "optint", "dictint", "unionil", "tuple2", "andpos", "posint", "nested", "xorpos", "noteven", "typeint", "listtype"]
 
 
 def n_cases(tier):
